@@ -723,8 +723,10 @@ func genC14(w *bufio.Writer, seed int64, n int, tier string) {
 		for {
 			g := &c14Gen{r: r, w: w, keys: 4 + r.Intn(6)}
 			shape := i % 4
-			if i >= 4 {
-				shape = r.Intn(7)
+			if i == 4 {
+				shape = 7
+			} else if i > 4 {
+				shape = r.Intn(8)
 			}
 			switch shape {
 			case 0: // replica first, then bursts (also of a single write: the last write must arrive)
@@ -786,6 +788,34 @@ func genC14(w *bufio.Writer, seed int64, n int, tier string) {
 				g.emit("join")
 				g.emit("settle")
 				g.burst(2, 3)
+				g.emit("settle")
+			case 7: // the log ENDS with a transaction that straddles the 100th (or 200th) entry of a fetch;
+				// the replica fetches it late: after joining, after a restart, or from a later sequence
+				pre := 0
+				variant := r.Intn(3)
+				if variant == 2 { // the replica already holds a prefix and was cut off meanwhile
+					g.emit("join")
+					pre = 2 + r.Intn(30)
+					g.many(pre)
+					g.emit("settle")
+					g.emit("cut")
+				}
+				singles := 91 + r.Intn(9) + 100*r.Intn(2)
+				g.many(singles)
+				g.nkey++
+				t := 100 - singles%100 + 1 + r.Intn(8)
+				g.emit(fmt.Sprintf("bigtx %d %s", t, mkTok([]byte(fmt.Sprintf("t%d-", g.nkey)))))
+				g.seqs = append(g.seqs, t)
+				switch variant {
+				case 0:
+					g.emit("join")
+				case 1:
+					g.emit("join")
+					g.emit("stop")
+					g.emit("start")
+				case 2:
+					g.emit("heal")
+				}
 				g.emit("settle")
 			case 5: // cut while the replica is catching up on a long history
 				g.many(150 + r.Intn(100))
